@@ -757,12 +757,16 @@ def _process_start_wrapper(self, *args, **kwargs):
     # (may acquire the new lock in a nested call while still holding the old lock)
     # out of sync until it has fully released the old lock.
 
+    # The synchronization primitives are passed on through the process' "config", which
+    # is inherited by every process created within the subprocess; they thereby also
+    # get through subprocesses within which this module is never imported.
+
     with _tty_lock:
         if isinstance(_tty_lock, _rlock_type):
             try:
-                self._tty_lock = _tty_lock = mp_RLock()
+                self._config[_TTY_LOCK_KEY] = _tty_lock = mp_RLock()
             except ImportError:
-                self._tty_lock = None
+                self._config[_TTY_LOCK_KEY] = None
                 warnings.warn(
                     "Multi-process synchronization is not supported on this platform!\n"
                     "Hence, if any subprocess will be writing/reading to/from the "
@@ -777,17 +781,19 @@ def _process_start_wrapper(self, *args, **kwargs):
                     TermImageUserWarning,
                 )
         else:
-            self._tty_lock = _tty_lock
+            self._config[_TTY_LOCK_KEY] = _tty_lock
 
     with _cell_size_lock:
         if isinstance(_cell_size_lock, _rlock_type):
             try:
-                self._cell_size_cache = _cell_size_cache = Array("i", _cell_size_cache)
+                self._config[_CELL_SIZE_CACHE_KEY] = _cell_size_cache = Array(
+                    "i", _cell_size_cache
+                )
                 _cell_size_lock = _cell_size_cache.get_lock()
             except ImportError:
-                self._cell_size_cache = None
+                self._config[_CELL_SIZE_CACHE_KEY] = None
         else:
-            self._cell_size_cache = _cell_size_cache
+            self._config[_CELL_SIZE_CACHE_KEY] = _cell_size_cache
 
     return _process_start_wrapper.__wrapped__(self, *args, **kwargs)
 
@@ -796,10 +802,10 @@ def _process_start_wrapper(self, *args, **kwargs):
 def _process_run_wrapper(self, *args, **kwargs):
     global _tty_lock, _cell_size_cache, _cell_size_lock
 
-    if self._tty_lock:
-        _tty_lock = self._tty_lock
-    if self._cell_size_cache:
-        _cell_size_cache = self._cell_size_cache
+    if self._config.get(_TTY_LOCK_KEY):
+        _tty_lock = self._config[_TTY_LOCK_KEY]
+    if self._config.get(_CELL_SIZE_CACHE_KEY):
+        _cell_size_cache = self._config[_CELL_SIZE_CACHE_KEY]
         _cell_size_lock = _cell_size_cache.get_lock()
 
     return _process_run_wrapper.__wrapped__(self, *args, **kwargs)
@@ -811,6 +817,8 @@ Array = get_context("spawn").Array
 mp_RLock = get_context("spawn").RLock
 
 # Private internal variables
+_TTY_LOCK_KEY = "term_image.tty_lock"
+_CELL_SIZE_CACHE_KEY = "term_image.cell_size_cache"
 _query_timeout = 0.1
 _queries_enabled = True
 _swap_win_size = False
@@ -858,10 +866,10 @@ if OS_IS_UNIX:
 
         # This module might've been first imported in a subprocess that has already
         # started (e.g. within the target of a "spawned" process)
-        if getattr(current_process(), "_tty_lock", None):
-            _tty_lock = current_process()._tty_lock
-        if getattr(current_process(), "_cell_size_cache", None):
-            _cell_size_cache = current_process()._cell_size_cache
+        if current_process()._config.get(_TTY_LOCK_KEY):
+            _tty_lock = current_process()._config[_TTY_LOCK_KEY]
+        if current_process()._config.get(_CELL_SIZE_CACHE_KEY):
+            _cell_size_cache = current_process()._config[_CELL_SIZE_CACHE_KEY]
             _cell_size_lock = _cell_size_cache.get_lock()
 
         # Shouldn't be needed since we're getting our own separate file descriptors
